@@ -331,10 +331,17 @@ func typesOf(ds []drv.Diag) string {
 type c08Init struct {
 	name string
 	st   c08State
+	// pre: events applied before the enumerated history (start from a non-initial state, e.g. a document already open)
+	pre []c08Event
+	// alpha: restricted event alphabet (nil = the full one)
+	alpha []c08Event
 }
 
 func c08Space(lay c08Layout, init c08Init, depth, nvar int) *core.Space {
 	alpha := c08Alphabet(nvar)
+	if init.alpha != nil {
+		alpha = init.alpha
+	}
 	K := int64(len(alpha))
 	n := int64(1)
 	for i := 0; i < depth; i++ {
@@ -350,7 +357,7 @@ func c08Space(lay c08Layout, init c08Init, depth, nvar int) *core.Space {
 			evs[k] = alpha[i%K]
 			i /= K
 		}
-		return evs
+		return append(append([]c08Event{}, init.pre...), evs...)
 	}
 	return &core.Space{
 		Name: name, N: n, Chunk: 2000, RecycleEvery: 40,
@@ -377,6 +384,16 @@ func c08Space(lay c08Layout, init c08Init, depth, nvar int) *core.Space {
 			}
 			r.Evaluated++
 			r.Nontrivial++
+			// the fresh-server views of every state of this history are computed BEFORE the history server exists: the
+			// server keeps part of its state in package-level variables, so two live servers in one process disturb each other
+			{
+				st := init.st
+				c08FreshView(st)
+				for _, e := range evs {
+					st, _ = st.step(e)
+					c08FreshView(st)
+				}
+			}
 			root := drv.NewWorkspace(c08DiskFiles(init.st))
 			defer drv.RemoveWorkspace(root)
 			s, err := drv.Start(root, drv.Options{InitOptions: drv.AllChecks()})
@@ -436,12 +453,23 @@ func init() {
 		Flavour: "prod+overlay", QuickBudgetS: 200, ThoroughBudgetS: 1800,
 		Spaces: func(tier string) []*core.Space {
 			inits := []c08Init{
-				{"a-clean", c08State{disk: [2]int{0, -1}, buf: [2]int{-1, -1}}},
-				{"a-requires-b,b-defines-g", c08State{disk: [2]int{5, 3}, buf: [2]int{-1, -1}}},
-				{"a-reads-g,b-syntax-error", c08State{disk: [2]int{4, 1}, buf: [2]int{-1, -1}}},
+				{name: "a-clean", st: c08State{disk: [2]int{0, -1}, buf: [2]int{-1, -1}}},
+				{name: "a-requires-b,b-defines-g", st: c08State{disk: [2]int{5, 3}, buf: [2]int{-1, -1}}},
+				{name: "a-reads-g,b-syntax-error", st: c08State{disk: [2]int{4, 1}, buf: [2]int{-1, -1}}},
 			}
 			var sp []*core.Space
 			flat := c08Layouts[0]
+			// edit/save cycles on one open document: deeper histories over a five-event alphabet
+			cyc := c08Init{name: "b-open(syntax-error-on-disk)-edit-save-cycles", st: c08State{disk: [2]int{4, 1}, buf: [2]int{-1, -1}},
+				pre:   []c08Event{{"open", 1, 0}},
+				alpha: []c08Event{{"change", 1, 0}, {"change", 1, 1}, {"change", 1, 2}, {"save", 1, 0}, {"save-unwatched", 1, 0}}}
+			cd := 6
+			if tier == "thorough" {
+				cd = 8
+			}
+			for d := 4; d <= cd; d++ {
+				sp = append(sp, c08Space(flat, cyc, d, 3))
+			}
 			if tier == "thorough" {
 				for _, in := range inits {
 					sp = append(sp, c08Space(flat, in, 1, 6), c08Space(flat, in, 2, 6), c08Space(flat, in, 3, 6), c08Space(flat, in, 4, 6))
@@ -462,4 +490,93 @@ func init() {
 			return sp
 		},
 	})
+}
+
+// C08Debug replays one history given as words (`vcheck c08 <layout> <init-index> open:1 change:1:0 save-unwatched:1 ...`,
+// event:file[:variant]) and prints the client's view and the verdict after every event. Maintainer tool.
+func C08Debug(args []string) {
+	if args[0] == "warm" {
+		// an unrelated server is started and closed first in this process
+		files := map[string]string{"z.lua": "local z = 1\nprint(z)\n"}
+		if os.Getenv("WARM_G") != "" {
+			files = map[string]string{"a.lua": "print(g)\n", "b.lua": "g = 1\n"}
+		}
+		root := drv.NewWorkspace(files)
+		if s, err := drv.Start(root, drv.Options{InitOptions: drv.AllChecks()}); err == nil {
+			if os.Getenv("WARM_G") == "2" {
+				s.Open("a.lua", files["a.lua"])
+				s.Definition("a.lua", 0, 6)
+			}
+			s.Close()
+		}
+		drv.RemoveWorkspace(root)
+		C08Debug(args[1:])
+		return
+	}
+	if args[0] == "twice" {
+		// the same history twice in one process: the verdicts must agree (process-global state must not leak)
+		C08Debug(args[1:])
+		C08Debug(args[1:])
+		return
+	}
+	lay := c08Layouts[0]
+	for _, l := range c08Layouts {
+		if l.name == args[0] {
+			lay = l
+		}
+	}
+	c08Use(lay)
+	inits := []c08State{
+		{disk: [2]int{0, -1}, buf: [2]int{-1, -1}},
+		{disk: [2]int{5, 3}, buf: [2]int{-1, -1}},
+		{disk: [2]int{4, 1}, buf: [2]int{-1, -1}},
+	}
+	var ii int
+	fmt.Sscan(args[1], &ii)
+	st := inits[ii]
+	{
+		pst := st
+		c08FreshView(pst)
+		for _, w := range args[2:] {
+			p := strings.Split(w, ":")
+			e := c08Event{kind: p[0]}
+			fmt.Sscan(p[1], &e.file)
+			if len(p) > 2 {
+				fmt.Sscan(p[2], &e.v)
+			}
+			if n, ok := pst.step(e); ok {
+				pst = n
+				c08FreshView(pst)
+			}
+		}
+	}
+	root := drv.NewWorkspace(c08DiskFiles(st))
+	defer drv.RemoveWorkspace(root)
+	s, err := drv.Start(root, drv.Options{InitOptions: drv.AllChecks()})
+	if err != nil {
+		fmt.Println("start:", err)
+		return
+	}
+	defer s.Close()
+	fmt.Printf("initial: %s\n", strings.ReplaceAll(s.DiagView(), "\n", " // "))
+	for _, w := range args[2:] {
+		p := strings.Split(w, ":")
+		e := c08Event{kind: p[0]}
+		fmt.Sscan(p[1], &e.file)
+		if len(p) > 2 {
+			fmt.Sscan(p[2], &e.v)
+		}
+		n, ok := st.step(e)
+		if !ok {
+			fmt.Println(e.String(), ": not producible by the client model in state", st.key())
+			return
+		}
+		if err := c08Apply(s, st, e); err != nil {
+			fmt.Println(e.String(), ": transport error", err)
+			return
+		}
+		st = n
+		sig, what := c08Check(s, st)
+		fmt.Printf("%-40s client: %s\n    verdict: %s %s\n", e.String(), strings.ReplaceAll(s.DiagView(), "\n", " // "), sig, what)
+	}
 }
